@@ -83,6 +83,10 @@ type World struct {
 	Dials   map[string]int // dial attempts per address
 	// DialHook may refuse or delay a dial (addr, attempt index) -> error
 	DialHook func(addr string, attempt int) error
+	// DialStorms counts dials that were slowed down by the dial-storm brake
+	DialStorms int
+	stormAt    int64
+	stormN     int
 }
 
 func NewWorld() *World {
@@ -123,7 +127,23 @@ func (w *World) Dial(addr string) (net.Conn, error) {
 	w.Dials[addr] = n + 1
 	hook := w.DialHook
 	stopped := w.stopped
+	// Dial-storm brake: a client loop that reconnects again and again without ever blocking would keep
+	// the bubble from becoming idle, so virtual time could never advance and the loop would never end.
+	// After 100 dials at one virtual instant every further dial costs a virtual millisecond.
+	now := w.Since()
+	if now == w.stormAt {
+		w.stormN++
+	} else {
+		w.stormAt, w.stormN = now, 0
+	}
+	storm := w.stormN > 100
+	if storm {
+		w.DialStorms++
+	}
 	w.mu.Unlock()
+	if storm {
+		time.Sleep(time.Millisecond)
+	}
 	if stopped {
 		return nil, fmt.Errorf("fakeredis: world stopped")
 	}
